@@ -124,12 +124,14 @@ def eval_groupop(case):
             pool.append(g + R); names.append('g{}+R{}#exact'.format(n, s))
         pool.append(crystal.GroupOp(g.rot.copy(), g.trans + 1e-12, g.cartrot + 1e-12, g.indexmap)); names.append('g{}+R0#1e-12'.format(n))
         pool.append(crystal.GroupOp(g.rot.copy(), g.trans + 1e-3, g.cartrot.copy(), g.indexmap)); names.append('g{}+R0#1e-3'.format(n))
+        pool.append(crystal.GroupOp(g.rot.astype(np.int32), g.trans.copy(), g.cartrot.copy(), g.indexmap)); names.append('g{}+R0#rot-int32'.format(n))
     L.equality(pool, names)
     # expected equalities: exact ~ 1e-12 copy; 1e-3 copy differs; translates differ
-    for n in range(0, len(pool), 5):
+    for n in range(0, len(pool), 6):       # six entries per operation
         if not pool[n] == pool[n + 3]: L.fail('near-copy-unequal', names[n + 3])
         if pool[n] == pool[n + 4]: L.fail('far-copy-equal', names[n + 4])
         if pool[n] == pool[n + 1]: L.fail('translate-equal', names[n + 1])
+        if not pool[n] == pool[n + 5]: L.fail('int32-copy-unequal', names[n + 5])
     # group algebra over the whole group
     ident = None
     for g in G:
@@ -168,6 +170,9 @@ def eval_pairstate(case):
     for n, s in enumerate(states[:30]):
         pool.append(stars.PairState(s.i, s.j, s.R.copy(), s.dx + 1e-12)); names.append('s{}#dx+1e-12'.format(n))
         pool.append(stars.PairState.fromcrys_latt(crys, chem, (s.i, s.j), s.R.copy())); names.append('s{}#rebuilt'.format(n))
+        # the same lattice vector in other integer representations a caller may pass (equal value => equal object)
+        pool.append(stars.PairState(s.i, s.j, s.R.astype(np.int32), s.dx.copy())); names.append('s{}#R-int32'.format(n))
+        pool.append(stars.PairState.fromcrys_latt(crys, chem, (s.i, s.j), s.R.astype(np.int16))); names.append('s{}#rebuilt-int16'.format(n))
     L.equality(pool, names, triples=len(pool) <= 150)
     P = stars.PairState
     G = list(crys.G)
@@ -279,10 +284,16 @@ def eval_vtk(case):
         pool.append(vTK(pre=k.pre.copy(), betaene=k.betaene.copy(), preT=k.preT.copy(), betaeneT=k.betaeneT.copy())); names.append(base + '#copy')
         pool.append(vTK(pre=k.pre.copy(), betaene=k.betaene + 1e-12, preT=k.preT.copy(), betaeneT=k.betaeneT + 1e-12)); names.append(base + '#1e-12')
         pool.append(vTK(pre=k.pre.copy(), betaene=k.betaene.copy(), preT=k.preT.copy(), betaeneT=k.betaeneT + 1e-3)); names.append(base + '#1e-3')
+        # the same values in other representations (equal value => equal hash): single precision where exact, and -0.0 for 0.0
+        pool.append(vTK(pre=k.pre.copy(),
+                        betaene=np.where(k.betaene == 0, -0.0, k.betaene), preT=k.preT.copy(), betaeneT=k.betaeneT.copy())); names.append(base + '#negzero')
+        pool.append(vTK(pre=k.pre.astype(np.float32), betaene=k.betaene.copy(), preT=k.preT.copy(), betaeneT=k.betaeneT.copy())); names.append(base + '#pre-float32')   # pre is all ones: exact in single precision
     eq = L.equality(pool, names)
-    for n in range(0, len(pool), 4):
+    for n in range(0, len(pool), 6):       # six entries per base
         if not eq[n, n + 1]: L.fail('copy-unequal', names[n + 1])
         if eq[n, n + 3]: L.fail('far-copy-equal', names[n + 3])
+        if not eq[n, n + 4]: L.fail('negzero-copy-unequal', names[n + 4])
+        if not eq[n, n + 5]: L.fail('float32-copy-unequal', names[n + 5])
     # dictionary use, as the calculator's cache does
     dct = {pool[0]: 'a'}
     L.arith += 1
